@@ -9,6 +9,7 @@ import (
 
 	"github.com/formancehq/ledger/internal/api"
 	"github.com/formancehq/ledger/internal/opentelemetry/metrics"
+	"github.com/formancehq/ledger/xverif/lib/engineh"
 	"github.com/formancehq/ledger/xverif/lib/evid"
 	"github.com/formancehq/ledger/xverif/lib/recbackend"
 	"github.com/formancehq/stack/libs/go-libs/auth"
@@ -105,7 +106,7 @@ func c19() int {
 										req = nil
 									}
 								}()
-								req = httptest.NewRequest(m, path+q, strings.NewReader(body))
+								req = httptest.NewRequest(m, path+q, strings.NewReader(body)).WithContext(engineh.QuietCtx())
 							}()
 							if req == nil {
 								continue
